@@ -343,13 +343,38 @@ def patLoop (pref suf : Option Nat) (core : Str) : Nat → Str → Bool
          | _ :: t' => patLoop pref suf core (idx + 1) t')
     else false
 
+/-- `wildTail(s)` started in escape state `esc`, as the split `(s[:cut], s[cut:])`:
+    the second part is the trailing run of unquoted special characters. -/
+def splitTail (esc : Bool) : Str → Str × Str
+  | [] => ([], [])
+  | c :: rest =>
+    let r := splitTail (!esc && c == 92) rest
+    if !esc && (c == 42 || c == 63) && r.1.isEmpty then ([], c :: r.2) else (c :: r.1, r.2)
+
+/-- The second `switch` of `patCompare`: the trailing wildcard is looked for in
+    the unquoted tail only. -/
+def stripTrailQ (s : Str) : Option Nat × Str :=
+  let sp := splitTail false s
+  let q := stripTrail sp.2
+  (q.1, sp.1 ++ q.2)
+
+/-- `unquote` started in escape state `esc`: the quoting backslashes removed. -/
+def unquoteAux (esc : Bool) : Str → Str
+  | [] => []
+  | c :: rest =>
+    if esc then c :: unquoteAux false rest
+    else if c = 92 then unquoteAux true rest
+    else c :: unquoteAux false rest
+
+def unquote (s : Str) : Str := unquoteAux false s
+
 /-- `patCompare(s, t)`. -/
 def patCompare (s t : Str) : Bool :=
   let s := lower s
   let t := lower t
   let l := stripLead s
-  let r := stripTrail l.2
-  patLoop l.1 r.1 r.2 0 t
+  let r := stripTrailQ l.2
+  patLoop l.1 r.1 (unquote r.2) 0 (unquote t)
 
 /-- `strings.EqualFold` on ASCII strings. -/
 def equalFold (s t : Str) : Bool := lower s == lower t
